@@ -111,7 +111,7 @@ PROPS = {
         modules=['Pbc.Props.C02', 'Pbc.Lemmas.Elem'],
         theorems=['Pbc.Props.C02.packMsg_length', 'Pbc.Props.C02.chunksMsg_flatten', 'Pbc.Props.C02.chunks_total',
                   'Pbc.Lemmas.scanKey_keyBytes', 'Pbc.Lemmas.scanLen_lenPrefixed'],
-        refine=PARSE_LEAVES + PACK_LEAVES,
+        refine=PARSE_LEAVES + PACK_LEAVES + SIZE_LEAVES,
         cases=[('wire', 500, 8000, [])],
         oracle='c06',
     ),
